@@ -415,6 +415,50 @@ def run(ctx):
         if k_ not in seen_sel:
             rsel.violate("%s: %s line" % k_, "line search comparison not found (anchor lost)")
     rsel.require(3, "line searches")
+    # the search walks the lines: every pass through a `while let Some(..) = iter.peek()` search loop that goes round again has drawn
+    # the line it looked at (`iter.next()`) and added its length to the running offset, once each
+    from .. import loops as _loops, prims as _prims
+    rstep = ctx.rule("R14-STEP", "every round of a peeking line-search loop draws the peeked line once and adds its length to the running offset once")
+
+    class Step(_prims.Paths):
+        def __init__(self, crate, body, itvar):
+            super().__init__(crate, {"value": body, "params": []}, set())
+            self.it = itvar
+
+        def write_of(self, n):
+            if n["k"] == "mcall" and n.get("name") == "next" and _loops.root_local(n["recv"]) == self.it:
+                return ("next", n)
+            if n["k"] == "assign_op" and n.get("op") in ("+=", "+") and n["l"]["k"] == "local":
+                return ("acc", n)
+            return None
+
+    for nm in ("display_span", "display_position"):
+        b = g.bodies.get("pest_typed::formatter::FormatOption::<SF, MF, NF>::" + nm)
+        if b is None:
+            continue
+        k_ = 0
+        for lp in walk(b["value"]):
+            if lp["k"] != "loop":
+                continue
+            peeks = [m for m in walk(lp["body"]) if m["k"] == "mcall" and m.get("name") == "peek" and _loops.root_local(m["recv"]) is not None]
+            if not peeks:
+                continue
+            k_ += 1
+            itv = _loops.root_local(peeks[0]["recv"])
+            key = "%s: search loop #%d" % (nm, k_)
+            try:
+                st = Step(c, lp["body"], itv)
+                back = [w for oc, v, w, f in st.run(lp["body"], (), {}) if oc in ("norm", "continue")]
+            except RuntimeError as ex:
+                rstep.violate(key, "cannot enumerate the loop's paths: %s" % ex, c.loc(lp.get("sp")))
+                continue
+            bad = [w for w in back if [x[0] for x in w].count("next") != 1 or [x[0] for x in w].count("acc") != 1]
+            if bad or not back:
+                rstep.violate(key, "a path that goes round the search loop again has %s: the search would look at the same line twice or lose "
+                              "track of the running offset" % (sorted(x[0] for x in bad[0]) if bad else "no back edge"), c.loc(lp.get("sp")))
+            else:
+                rstep.inst(key, c.loc(lp.get("sp")), "ok", {"back_edge_paths": len(back)})
+    rstep.require(1, "search loops")       # 2 today; a search rewritten with iterator adaptors is not a loop any more
 
     # gutter: the width of the number column is computed from the largest line number that is printed
     rgt = ctx.rule("R14-GUTTER", "every display_snippet_* call in display_span / display_position gets the width ceil_log10(L + 1) where L is the "
